@@ -5,24 +5,26 @@ import json, os, re, shutil, subprocess, sys
 sys.path.insert(0, os.path.dirname(os.path.abspath(__file__)))
 import collectseeds as cs
 
-AREAS = ["main", "lexer", "lists", "texts", "headers", "dataemit", "branchrender", "constauto"]
+ROUND = os.environ.get("SEED_ROUND", "3")
+AREAS = {"3": ["main", "lexer", "lists", "texts", "headers", "dataemit", "branchrender", "constauto"],
+         "4": ["emit2site", "parse2emit", "stateflow", "options", "history", "lookahead", "bounds", "unicode", "pory", "mapscr"]}[ROUND]
 EXTRA = {"main": ["C17", "C18"], "lexer": ["C19"], "lists": ["C14", "C06"], "texts": ["C06"], "headers": ["C08"], "dataemit": [], "branchrender": ["C01"], "constauto": ["C11"]}
 
 def main():
     only = sys.argv[1:]
     for a in AREAS:
         for v in "AB":
-            name = f"R3-{a}-{v}"
+            name = f"R{ROUND}-{a}-{v}"
             if only and not any(o in name for o in only):
                 continue
-            src = f"/tmp/seed3_{a}/out"
+            src = f"/tmp/seed{ROUND}_{a}/out"
             patch = f"{src}/{v}.patch"
             if not os.path.exists(patch):
                 print(name, "missing"); continue
             meta = json.load(open(f"{src}/{v}_meta.json"))
             m = re.search(r"C\d\d", str(meta.get("property")))
             pid = m.group(0) if m else "C01"
-            checks = list(dict.fromkeys([pid] + cs.RELATED.get(pid, []) + EXTRA[a]))
+            checks = list(dict.fromkeys([pid] + cs.RELATED.get(pid, []) + EXTRA.get(a, []) + (["C17", "C18", "C04"] if ROUND == "4" else [])))
             head = cs.reset()
             demo = f"{src}/{v}_demo/run.sh"
             ver = {"repo_head": head}
@@ -53,7 +55,7 @@ def main():
             shutil.copy(patch, f"{dst}/patch.diff"); shutil.copytree(f"{src}/{v}_demo", f"{dst}/demo")
             out = {"id": name, "property": pid, "area": a, "summary": meta.get("summary"), "needs_to_manifest": meta.get("needs_to_manifest"), "witness": meta.get("witness"),
                    "why_tests_pass": meta.get("why_tests_pass"),
-                   "origin": "round 3: written by an independent sub-agent assigned a code AREA (it saw the twenty property texts and a scratch worktree, nothing from /verif)",
+                   "origin": f"round {ROUND}: written by an independent sub-agent assigned a code area / theme (it saw the twenty property texts and a scratch worktree, nothing from /verif)",
                    "what_was_run": [f"git apply patch.diff (scratch worktree at /repo HEAD {head[:7]})", "go build ./... && go build -tags verif ./...", "go test -count=1 ./...",
                                     "demo/run.sh <repo> on the clean tree and with the change", "VERIF_REPO=<scratch> ./run <check> quick for: " + ", ".join(checks)],
                    "verified": ver, "checks": caught, "caught_by": [c for c, x in caught.items() if x["verdict"] == "VIOLATION"]}
